@@ -107,6 +107,7 @@ type routerSession struct {
 	cur     *reqRecord
 	lastHid int
 	autoHead bool // what the last AUTOHEAD line set (Flame.AutoHead); the shadow trees follow it
+	groups  []string // GRP … END: the paths of the groups whose callbacks are running, outermost first
 }
 
 func showParams(ps map[string]string) string {
@@ -190,10 +191,53 @@ func execRouter(args []string, lines [][]string) []string {
 	})
 	s.f.Use(func(c flamego.Context) {})
 	outs := []string{"new"}
-	for _, l := range lines {
-		outs = append(outs, s.op(l))
-	}
+	s.runLines(lines, 0, &outs)
 	return outs
+}
+
+// runLines executes the operations from line i on.  `GRP <path>` calls Flame.Group with that path and runs the following
+// lines INSIDE its callback, up to the matching `END` (or the end of the session); every other operation is executed where
+// it stands — inside the callbacks of all groups that are open at that line.  Returns the index of the first line not
+// consumed.
+func (s *routerSession) runLines(lines [][]string, i int, outs *[]string) int {
+	for i < len(lines) {
+		l := lines[i]
+		switch {
+		case len(l) == 2 && l[0] == "GRP":
+			*outs = append(*outs, "ok")
+			next := i + 1
+			path := unhx(l[1])
+			func() {
+				defer func() {
+					if r := recover(); r != nil {
+						// no operation lets a panic out of a group callback; if Group itself panics the rest is marked
+						for len(*outs) < len(lines)+1 {
+							*outs = append(*outs, "harness-panic")
+						}
+						next = len(lines)
+					}
+				}()
+				s.f.Group(path, func() {
+					s.groups = append(s.groups, path)
+					next = s.runLines(lines, i+1, outs)
+					s.groups = s.groups[:len(s.groups)-1]
+				})
+			}()
+			i = next
+		case len(l) == 1 && l[0] == "END":
+			if len(s.groups) == 0 {
+				*outs = append(*outs, "bad-op")
+				i++
+				continue
+			}
+			*outs = append(*outs, "ok")
+			return i + 1
+		default:
+			*outs = append(*outs, s.op(l))
+			i++
+		}
+	}
+	return i
 }
 
 func (s *routerSession) op(l []string) (out string) {
@@ -210,7 +254,7 @@ func (s *routerSession) op(l []string) (out string) {
 		if len(l) != 5 {
 			return "bad-op"
 		}
-		return s.add(atoi(l[1]), l[2], unhx(l[3]))
+		return s.add(atoi(l[1]), l[2], unhx(l[3]), l[4])
 	case "AUTOHEAD":
 		// AUTOHEAD <0|1>: Flame.AutoHead(v) — from now on Get (also Combo(…).Get) registers the HEAD twin as well
 		if len(l) != 2 {
@@ -287,7 +331,15 @@ func okErr(f func()) (out string) {
 	return "ok"
 }
 
-func (s *routerSession) add(hid int, methods, text string) string {
+func (s *routerSession) add(hid int, methods, own, wire string) string {
+	// inside GRP … END the text on the line is the route's OWN part, handed to the router as it stands; the route is
+	// the concatenation of the paths of the open groups and that part
+	text := strings.Join(s.groups, "") + own
+	if wireOfText(text) != wire {
+		// the AST on the line is the real parser's for the CONCATENATED text (the model cross-checks it against its own
+		// parse): a line that does not stand inside the groups it was written for is malformed on both sides
+		return "ast-mismatch"
+	}
 	// "combo:GET,POST": the same registration through Combo(text).Get(h).Post(h), named through ComboRoute.Name
 	combo := strings.HasPrefix(methods, "combo:")
 	methods = strings.TrimPrefix(methods, "combo:")
@@ -342,7 +394,7 @@ func (s *routerSession) add(hid int, methods, text string) string {
 	res := okErr(func() {
 		switch {
 		case combo:
-			c := s.f.Combo(text)
+			c := s.f.Combo(own)
 			for _, m := range strings.Split(methods, ",") {
 				verb, ok := map[string]func(...flamego.Handler) *flamego.ComboRoute{"GET": c.Get, "POST": c.Post, "PUT": c.Put, "DELETE": c.Delete,
 					"PATCH": c.Patch, "OPTIONS": c.Options, "HEAD": c.Head, "CONNECT": c.Connect, "TRACE": c.Trace}[m]
@@ -360,11 +412,11 @@ func (s *routerSession) add(hid int, methods, text string) string {
 			}
 			rt = fn(text, h)
 		case methods == "*":
-			rt = s.f.Any(text, h)
+			rt = s.f.Any(own, h)
 		case strings.Contains(methods, ","):
-			rt = s.f.Routes(text, methods, h)
+			rt = s.f.Routes(own, methods, h)
 		default:
-			rt = s.f.Route(methods, text, []flamego.Handler{h})
+			rt = s.f.Route(methods, own, []flamego.Handler{h})
 		}
 	})
 	if res == "ok" && combo {
